@@ -24,6 +24,7 @@ func init() {
 		Run:       runC17,
 		Imports: []Import{
 			{From: "C08.b", Match: "cache-purge-after-disk-delete", As: "C17.f", Why: "a reader racing a tail-side deletion re-populates a cache that was purged before the datastore delete: the header is served after the deletion and the tail recedes onto it"},
+			{From: "C06.b", Match: "reset-after-success", As: "C17.g", Why: "'the header returned by Head() is itself retrievable' and 'every header whose Append was followed by Sync is readable' hold between a failed commit and its retry only if the pending batch still holds the headers"},
 			{From: "C04.a", Match: "getByHeight-miss-after", As: "C17.f", Why: "a flush moves headers from the pending batch to the datastore: a reader that looked at the index first and at the pending batch afterwards can miss a header that was present the whole time"},
 		},
 	})
@@ -204,6 +205,7 @@ func runC17(c *an.Ctx) {
 		checkPointerStoreNeedsChange(c, "C17.b")
 		checkPendingAppendKeepsBothMaps(c, "C17.d")
 		checkInitBeforeWriteLoop(c, "C17.e")
+		checkTailMovesAfterDeletion(c, "C17.a", deleteRange, p.Method("store", "Store", "deleteRangeRaw"), p.Method("store", "Store", "setTail"))
 	}
 
 	// --- C17.d guarded-by on the pending batch
